@@ -176,6 +176,44 @@ func main() {
 							bad("perturbation-not-reflected", "%s: chain hash unchanged after %s", tag, pn)
 						}
 					}
+					// the hash is a function of the fields, not of the value's history: an Info that has been hashed (and
+					// encoded) once and is then changed, in place or through a copy, hashes and encodes as the changed one
+					{
+						inPlace := map[string]func(i *chain.Info){
+							"period":  func(i *chain.Info) { i.Period += time.Second },
+							"genesis": func(i *chain.Info) { i.GenesisTime++ },
+							"seed":    func(i *chain.Info) { i.GenesisSeed = append(append([]byte{}, i.GenesisSeed...), 1) },
+							"id":      func(i *chain.Info) { i.ID = i.ID + "y" },
+							"key":     func(i *chain.Info) { i.PublicKey = other.Commits[0] },
+						}
+						for pn, f := range inPlace {
+							info := chain.NewChainInfo(m.Group(base))
+							h0 := append([]byte{}, info.Hash()...)
+							_, _ = json.Marshal(info)
+							_ = info.ToProto(nil)
+							cp := *info
+							f(info)
+							f(&cp)
+							fresh := chain.NewChainInfo(m.Group(base))
+							f(fresh)
+							evals += 3
+							if bytes.Equal(info.Hash(), h0) || !bytes.Equal(info.Hash(), fresh.Hash()) {
+								bad("stale-hash-after-modification", "%s: an Info hashed once and then changed in %s keeps its old chain hash", tag, pn)
+							}
+							if !bytes.Equal(cp.Hash(), fresh.Hash()) {
+								bad("stale-hash-after-modification", "%s: a copy of a hashed Info changed in %s does not hash like a fresh Info with the same fields", tag, pn)
+							}
+							if pk := info.ToProto(nil); !bytes.Equal(pk.Hash, fresh.Hash()) {
+								bad("stale-hash-after-modification", "%s: protobuf packet of an Info changed in %s carries a hash that does not match its fields", tag, pn)
+							}
+							if b, err := json.Marshal(info); err == nil {
+								var back chain.Info
+								if err := json.Unmarshal(b, &back); err != nil {
+									bad("stale-hash-after-modification", "%s: JSON of an Info changed in %s is rejected by the decoder: %v", tag, pn, err)
+								}
+							}
+						}
+					}
 					// another distributed key
 					{
 						g2 := m.Group(base)
